@@ -1702,6 +1702,11 @@ theorem setOrClear_good {s : St} (hi : Inv s) (isHusb : Bool) {f : Nat} (i : Opt
 
 theorem isFam_iff {a : Abs} {f : Id} : isFam a f = true ↔ a.tag f = tFAM := by simp [isFam]
 
+/-- the invariant supplies well-formedness of the document to the precondition -/
+theorem Sound.awf {α : Type} {pre : Abs → Prop} {m : M α} {g : Abs → α}
+    (h : Sound (fun a => AWF a ∧ pre a) m g) : Sound pre m g :=
+  fun s hi hp => h s hi ⟨hi.1.awf, hp⟩
+
 theorem runView_sound (v : View) :
     Sound (fun a => v.ok a = true) (runView v) (fun a => specView a v) := by
   cases v <;> simp only [runView, specView]
@@ -1717,9 +1722,23 @@ theorem runView_sound (v : View) :
   case husband f => exact Sound.bind' ((husband_sound f).weaken fun a h => isFam_iff.mp h) fun l => Sound.pure _
   case wife f => exact Sound.bind' ((wife_sound f).weaken fun a h => isFam_iff.mp h) fun l => Sound.pure _
   case famChildren f =>
-    exact Sound.bind' (g := fun l _ => Obs.ids (l.map some))
+    exact Sound.bind' (g := fun (l : List Id) _ => Obs.ids (l.map some))
       ((show Sound _ (famChildren f) _ from nwt_sound f tCHIL).weaken fun a h => tag_lt (isFam_iff.mp h) tFAM_ne)
       fun l => Sound.pure _
+  case names i =>
+    exact Sound.bind' (g := fun (l : List Id) _ => Obs.ids (l.map some))
+      (Sound.awf ((show Sound _ (names i) _ from nwt_sound i tNAME).weaken fun a h =>
+        h.1.roots _ (isIndi_iff.mp h.2).1))
+      fun l => Sound.pure _
+  case eventsOf i t =>
+    exact Sound.bind' (g := fun (l : List Id) _ => Obs.ids (l.map some))
+      (Sound.awf ((show Sound _ (eventsOf i t) _ from nwt_sound i t).weaken fun a h => by
+        have h2 := h.2
+        simp only [View.ok, Bool.and_eq_true] at h2
+        exact h.1.roots _ (isIndi_iff.mp h2.1).1))
+      fun l => Sound.pure _
+  case allEvents i =>
+    exact Sound.bind' (g := fun (l : List Id) _ => Obs.ids (l.map some)) (Sound.ofAbs _) fun l => Sound.pure _
 
 /-! ## reads whose answer is not modelled: they keep the invariant and the document -/
 
@@ -1921,6 +1940,9 @@ theorem exec_inv {s : St} (hi : Inv s) (op : Op) (hok : op.ok (abs s) = true) :
   | deleteNode n c =>
     simp only [Op.ok, decide_eq_true_eq] at hok
     exact (deleteKid_good hi hok c).1
+  | deleteNodesWithTag n t =>
+    simp only [Op.ok, decide_eq_true_eq] at hok
+    exact (deleteKidsWithTag_good hi hok t).1.1
   | setNodes n ks =>
     simp only [Op.ok, Bool.and_eq_true, decide_eq_true_eq, List.all_eq_true] at hok
     exact (setKidsOp_good hi hok.1 ks fun c hc => by simpa using hok.2 c hc).1
